@@ -21,7 +21,7 @@ def plan(ctx):
     quick = set()
     for rate in ("high", "low"):
         cfgs = sorted({(m["k"], m["r"]) for m in fam if m["rate"] == rate and m["kind"] == "dec_basis" and m.get("exhaustive_patterns")})
-        pick = {rnd.choice([c for c in cfgs if c[0] + c[1] == 5 and min(c) >= 2]), rnd.choice(cfgs)}
+        pick = {rnd.choice([c for c in cfgs if c[0] + c[1] == 5 and min(c) >= 2])}
         for (k, r) in pick:
             pats = sorted({(m["om"], m["rm"]) for m in fam if m["rate"] == rate and (m["k"], m["r"]) == (k, r) and m["kind"] == "dec_basis"})
             maxloss = [p for p in pats if families.popcount(p[0]) + families.popcount(p[1]) == k]
